@@ -558,6 +558,14 @@ impl<'a> Interpreter<'a> {
             }
         }
         let res = macro_(self, this.clone(), &v);
+        if self.is_compile_time() {
+            // a macro that fails while constant folding may have met a name that is only
+            // bound at run time; abandon the folding instead of handing the failure to an
+            // operator that absorbs it
+            if let CelValue::Err(err) = res {
+                return Err(err);
+            }
+        }
         Ok(res)
     }
 
